@@ -1,8 +1,10 @@
 """C09 - template syntax: literals, escapes, quotes and nesting parse as documented."""
 import json
 import os
+import threading
 import time
-from vf import Inconclusive, parallel, require_clean, validate_traces, vfj_lines
+from vf import Inconclusive, parallel, require_clean, vfj_lines
+import vf
 
 CLAIM = {
     "text": "ExprSyntax.tla gives the documented template syntax as a printer over annotated trees Lit | Grp | Key | Call(f, args) "
@@ -15,7 +17,15 @@ CLAIM = {
             "unknownFunc. Every enumerated case is compiled by the real compiler (optimising and not) into a fresh key builder with transparent "
             "functions and evaluated against a recording context: the rendering must spell the abstract tree. Seeded random trees (depth <= 4, "
             "<= 4 arguments, multi-byte alphabets), random malformations and wild edits are recorded and validated by TLC; a sample goes "
-            "through `rare expression`.",
+            "through `rare expression`. ExprSyntaxHist.tla models the key builder as an object with a history (function table, "
+            "memory between calls, the compiled templates handed out): TLC proves for every history of Func registrations and Compile "
+            "calls of its pools that the outcome of a Compile is a function of the template text and the registered functions only and "
+            "that compiled templates keep their value (a behaviour-preserving memoisation satisfies this, five history-dependent "
+            "variants - memoised arguments that swallow their errors, a memory that survives Func, a memory keyed by trimmed text, late "
+            "function binding, a leaking error list - are rejected); every enumerated history is replayed on ONE long-lived real key "
+            "builder (optimising and not), every compiled template re-evaluated after every later step; seeded random histories over a "
+            "shared pool of well-formed and malformed arguments are recorded and validated by TLC. Every empty statement / unregistered "
+            "function has to be reported as an error of its own (error counts, not only classes).",
     "note": "Outside the documented domain (only 'returns, no panic' is demanded): escapes inside braces (multi-level in the code), arguments "
             "containing \" { } \\, quoted keys, adjacent quoted/bare pieces, integers with sign/leading zeros or more than 9 digits, a lone "
             "trailing backslash, error offsets and the partial output of a template with compile errors. Trusted: TLC, the Go runtime.",
@@ -24,6 +34,25 @@ CLAIM = {
 }
 
 CLASSES = {"unterminated", "empty", "unknownFunc"}
+
+
+class _Budget:
+    """at most `n` TLC workers of this check at a time (the machine is shared): a TLC run waits for its share."""
+
+    def __init__(self, n):
+        self.free, self.cv = n, threading.Condition()
+
+    def run(self, workers, fn):
+        with self.cv:
+            while self.free < workers:
+                self.cv.wait()
+            self.free -= workers
+        try:
+            return fn()
+        finally:
+            with self.cv:
+                self.free += workers
+                self.cv.notify_all()
 
 
 def _cfg(invs, thorough):
@@ -50,6 +79,14 @@ def _txt(cps):
 
 def _check(run):
     quick = run.tier == "quick"
+    budget = _Budget(8)
+
+    def tlc(module, cfg, workers=1, **kw):
+        return budget.run(workers, lambda: run.tlc(module, cfg, workers=workers, **kw))
+
+    def validate_traces(run_, module, path, **kw):
+        return budget.run(1, lambda: vf.validate_traces(run_, module, path, **kw))
+
     run.assumptions += [
         "domain (ExprSyntax.tla WFTpl): arguments are bare words without \" { } \\ and blanks, or double-quoted strings without \" { } \\; "
         "keys are words with at least one character that is not a digit or sign; groups are 0..999999999 written without sign or leading "
@@ -59,16 +96,150 @@ def _check(run):
         "for a malformed template only the error classes are demanded (must-report set <= reported <= may-report set), not offsets or output; "
         "statements nested in the arguments of an unknown function need not be diagnosed",
         "the test functions f g h1 λx are registered through the public KeyBuilder.Func and only concatenate their evaluated arguments",
+        "history layer: a key builder may be used for any number of Compile calls with Func registrations in between; a Compile sees the "
+        "functions registered at that moment, a compiled template stays bound to the functions it was compiled with; re-evaluation is "
+        "demanded only for templates that compiled without error",
+        "error counts: at least one error per empty statement / call of an unregistered function that is not hidden below an unknown "
+        "function or behind a missing closing brace; no upper bound on the count",
     ]
     run.build_harness()
     vec_path = os.path.join(run.scratch, "c09-vectors.ndjson")
     res_path = os.path.join(run.scratch, "c09-replay.json")
     cli_path = os.path.join(run.scratch, "c09-cli.json")
     trace = os.path.join(run.scratch, "c09-trace.ndjson")
+    hist_path = os.path.join(run.scratch, "c09-histories.ndjson")
+    hres_path = os.path.join(run.scratch, "c09-replayhist.json")
+    htrace = os.path.join(run.scratch, "c09-histtrace.ndjson")
+    # negative controls: mode, the law it has to violate, the pool whose theme exposes it (quick tier; thorough searches every pool)
+    NEG = (("memoNoErr", "HistIndep", 4), ("memoStale", "HistIndep", 8), ("memoTrim", "HistIndep", 1), ("lateBind", "EvalStable", 1),
+           ("errLeak", "HistIndep", 4))
+
+    def hcfg(init, nxt, mode, maxops, invs, thorough=False, pool=0):
+        return ("INIT %s\nNEXT %s\nCONSTANTS Thorough = %s\nMode = \"%s\"\nMaxOps = %d\nPoolSel = %d\nINVARIANTS %s\n"
+                "CHECK_DEADLOCK FALSE\n" % (init, nxt, "TRUE" if thorough else "FALSE", mode, maxops, pool, invs))
+
+    # ---- history layer: B3 (laws over every history, positive and negative controls) + B1 (histories replayed on one builder)
+    def hist():
+        def collect(r, f):
+            k = 0
+            for v in vfj_lines(r.out):
+                f.write(json.dumps(v, separators=(",", ":")) + "\n")
+                k += 1
+            return k
+
+        def bfs():
+            r = tlc("ExprSyntaxHist_Gen", hcfg("GInit", "GNext", "plain", 3, "HistLawsOK Dump", thorough=not quick),
+                        workers=2, timeout=3000, label="ExprSyntaxHist_Gen (history laws + histories, <= 3 operations)")
+            require_clean(run, r, "ExprSyntaxHist_Gen (history laws, code as it is)")
+            run.cov["hist_b3_states"] = r.distinct
+            return r
+
+        def walk():  # deeper histories by random walks through the same machine
+            r = tlc("ExprSyntaxHist_Gen", hcfg("GInit", "GNext", "plain", 7, "HistLawsOK Dump", thorough=not quick),
+                        workers=1 if quick else 2, timeout=3000, simulate="num=%d" % (60 if quick else 1200), depth=9,
+                        label="ExprSyntaxHist_Gen (random histories of 7 operations)")
+            require_clean(run, r, "ExprSyntaxHist_Gen (history laws, deep random histories)")
+            return r
+
+        def memo():  # a behaviour-preserving memoisation satisfies the laws ...
+            r = tlc("ExprSyntaxHist_MC", hcfg("HInit", "HNext", "memo", 2 if quick else 3, "HistIndep EvalStable StepLawOK"),
+                        workers=1 if quick else 2, timeout=3000, label="ExprSyntaxHist_MC Mode=memo (sound memoisation)")
+            require_clean(run, r, "ExprSyntaxHist_MC Mode=memo")
+
+        def neg(mode, inv, pool):  # ... and every history-dependent variant is rejected by the model
+            r = tlc("ExprSyntaxHist_MC", hcfg("HInit", "HNext", mode, 3, "HistIndep EvalStable", pool=pool if quick else 0),
+                        workers=1 if quick else 2, timeout=3000, label="ExprSyntaxHist_MC Mode=%s (negative control)" % mode)
+            if inv not in r.violated:
+                raise Inconclusive("negative control %s does not violate %s (violated=%s)\n%s" % (mode, inv, r.violated, r.out[-2000:]))
+            return "%s violates %s" % (mode, inv)
+
+        def b1():
+            rs = parallel([bfs, walk], 2) if not quick else [bfs(), walk()]
+            with open(hist_path, "w") as f:
+                nh = sum(collect(r, f) for r in rs)
+            if nh < (20000 if quick else 100000):
+                raise Inconclusive("history generator produced only %d histories" % nh)
+            run.drv(["replayhist", "-in", hist_path, "-out", hres_path])
+            return nh
+
+        def bfs4():  # thorough: the laws over every history of <= 4 operations (model only)
+            r = tlc("ExprSyntaxHist_MC", hcfg("HInit", "HNext", "plain", 4, "HistLawsOK"), workers=2, timeout=3000,
+                        label="ExprSyntaxHist_MC Mode=plain, <= 4 operations")
+            require_clean(run, r, "ExprSyntaxHist_MC (history laws, <= 4 operations)")
+            run.cov["hist_b3_states_4_operations"] = r.distinct
+
+        def controls():
+            memo()
+            rej = [neg(*x) for x in NEG]
+            bfs4()
+            return rej
+
+        if quick:
+            def late():  # starts when the first TLC runs of the other threads are over
+                time.sleep(18)
+                return parallel([memo] + [lambda x=x: neg(*x) for x in NEG], 2)[1:]
+            nh, rej = parallel([b1, late], 2)
+        else:
+            nh, rej = parallel([b1, controls], 2)
+        run.cov["hist_negative_controls"] = rej
+        return nh
+
+    # ---- history layer B2: random histories on long-lived real key builders, validated by TLC
+    hcanary_compiles = 0
+
+    def hist_b2():
+        run.drv(["histtrace", "-out", htrace, "-n", 700 if quick else 30000])
+        lines = open(htrace).read().splitlines()
+        # split into histories; canaries = copies of real histories with one observed field corrupted
+        hs, cur = [], []
+        for ln in lines:
+            if '"op":"new"' in ln and cur:
+                hs.append(cur)
+                cur = []
+            cur.append(ln)
+        if cur:
+            hs.append(cur)
+        canaries = []
+        for h in hs[:400]:
+            recs = [json.loads(x) for x in h]
+            idx = [i for i, x in enumerate(recs) if x["op"] == "compile" and not x["panic"]]
+            if not idx:
+                continue
+            i = idx[len(idx) // 2]
+            if len(canaries) % 3 == 2 and any(not recs[q]["errs"] and not recs[q]["errs2"] for q in idx):
+                fld = ("re", "re3")[len(canaries) % 2]
+                recs[-1][fld] = [o + [33] for o in recs[-1][fld]]      # every re-evaluation differs
+                recs[-1]["canary"] = True
+            elif recs[i]["errs"]:
+                recs[i]["errs"], recs[i]["errn"] = [], {k: 0 for k in recs[i]["errn"]}
+                recs[i]["canary"] = True
+            else:
+                recs[i]["out2"] = recs[i]["out2"] + [33]
+                recs[i]["canary"] = True
+            canaries.append([json.dumps(x, separators=(",", ":")) for x in recs])
+            if len(canaries) >= 60:
+                break
+        k = 1 if quick else 8
+        per = (len(hs) + k - 1) // k
+        groups = [hs[i * per:(i + 1) * per] for i in range(k)]
+        groups[0] = groups[0] + canaries
+        nonlocal hcanary_compiles
+        hcanary_compiles = sum(1 for c in canaries for ln in c if '"op":"compile"' in ln)
+        chunks = []
+        for i, g in enumerate(groups):
+            part = [ln for h in g for ln in h]
+            if part:
+                p = os.path.join(run.scratch, "c09-hchunk-%d.ndjson" % i)
+                with open(p, "w") as f:
+                    f.write("\n".join(part) + "\n")
+                chunks.append((i, p, part))
+        res = parallel([lambda i=i, p=p: validate_traces(run, "ExprSyntaxHist_Trace", p, label="ExprSyntaxHist_Trace chunk %d" % i,
+                                                         timeout=3000, xmx="3g") for i, p, _ in chunks], min(k, 6))
+        return len(hs), len(canaries), chunks, res
 
     # ---- B3 (laws on the model) and the B1 generator explore the same case space; in the quick tier one TLC run does both
     def gen():
-        r = run.tlc("ExprSyntax_Gen", _cfg("LawOK Dump", False), workers=4 if quick else 2, timeout=3000,
+        r = tlc("ExprSyntax_Gen", _cfg("LawOK Dump", False), workers=4 if quick else 2, timeout=3000,
                     label="ExprSyntax_Gen (laws + vectors)")
         require_clean(run, r, "ExprSyntax_Gen (laws on the quick case space)")
         n = 0
@@ -84,7 +255,7 @@ def _check(run):
         return r
 
     def b3_thorough():
-        r = run.tlc("ExprSyntax_MC", _cfg("LawOK", True), workers=6, timeout=3000, xmx="8g",
+        r = tlc("ExprSyntax_MC", _cfg("LawOK", True), workers=4, timeout=3000, xmx="8g",
                     label="ExprSyntax_MC laws Thorough=TRUE")
         require_clean(run, r, "ExprSyntax_MC (laws)")
         if r.distinct < 400000:
@@ -128,11 +299,15 @@ def _check(run):
 
         return nreal, canary, chunks, parallel([lambda i=i, p=p: val(i, p) for i, p, _ in chunks], k)
 
+    def b2_both():
+        a = b2()
+        return a, hist_b2()
+
     if quick:
-        _, (nreal, canary, chunks, results) = parallel([gen, b2], 2)
+        _, ((nreal, canary, chunks, results), (hn, hcanary, hchunks, hresults)), nhist = parallel([gen, b2_both, hist], 3)
     else:
-        parallel([gen, b3_thorough], 2)
-        nreal, canary, chunks, results = b2()
+        _, _, nhist, ((nreal, canary, chunks, results), (hn, hcanary, hchunks, hresults)) = parallel(
+            [b3_thorough, gen, hist, b2_both], 4)
 
     # ---- B1 verdicts
     res = json.load(open(res_path))
@@ -154,6 +329,35 @@ def _check(run):
         run.violation("b1:%s:%s" % (m["kind"], m["class"]),
                       "template %r (group %s, optimise=%s) gives %r errors=%s%s; ExprSyntax.tla expects %s" % (
                           m["text"], m["g"], m["opt"], m["got"], m["errs"], " PANIC " + m["panic"] if m["panic"] else "", exp), m)
+
+    # ---- B1 verdicts, history layer
+    hres = json.load(open(hres_path))
+    if hres["histories"] != nhist:
+        raise Inconclusive("replayed %d of %d histories" % (hres["histories"], nhist))
+    run.cov["b1_histories"] = hres["histories"]
+    run.cov["b1_history_compilations"] = hres["compilations"]
+    run.cov["b1_history_registrations"] = hres["registrations"]
+    run.cov["b1_history_reevaluations"] = hres["reevaluations"]
+    run.cov["b1_histories_meeting_a_text_again_or_after_a_registration"] = hres["histories_with_repeats"]
+    run.cov["traces_validated_against_impl"] += hres["compilations"]
+    run.cov["evaluations"] += hres["compilations"] + hres["reevaluations"]
+    run.cov["distinct_nontrivial"] += hres["distinct_nontrivial"]
+    for sm in (hres["samples"] or [])[:1]:
+        run.sample({"b1_history": sm})
+    for m in hres["mismatches"] or []:
+        if m["class"] == "reeval":
+            what = ("the template %r compiled at step %d evaluates to %r after step %d; ExprSyntaxHist.tla (EvalStable) expects %r as at "
+                    "compile time" % (m["text"], m["compiled_at_step"], m["got"], m["reevaluated_after_step"], m["expect"]))
+        elif m["kind"] == "err":
+            what = ("step %d Compile(%r) reports errors=%s counts=%s%s; ExprSyntaxHist.tla expects the error classes %s (at most %s), at "
+                    "least %s errors, whatever was compiled before" % (m["step"], m["text"], m["errs"], m["errn"],
+                                                                      " PANIC " + m["panic"] if m["panic"] else "", m["lo"], m["hi"], m["lon"]))
+        else:
+            what = ("step %d Compile(%r) gives %r errors=%s%s; ExprSyntaxHist.tla expects no error and the rendering %r, whatever was "
+                    "compiled before" % (m["step"], m["text"], m["got"], m["errs"], " PANIC " + m["panic"] if m["panic"] else "", m["expect"]))
+        run.violation("b1h:%s:%s" % (m["kind"], m["class"]),
+                      "history on one key builder (optimise=%s, first evaluation %s) %s: %s" % (
+                          m["opt"], "at the end of the history" if m.get("deferred") else "at once", " ; ".join(m["history"]), what), m)
 
     cli = json.load(open(cli_path))
     run.cov["cli_runs"] = cli["runs"]
@@ -202,6 +406,57 @@ def _check(run):
             run.sample({"b2": {"kind": rec["kind"], "text": _txt(rec["text"]), "out": _txt(rec["out"]), "errs": rec["errs"]}})
     if (nontrivial - canary) * 2 < nreal:
         raise Inconclusive("only %d of %d recorded compilations are inside the documented domain" % (nontrivial - canary, nreal))
+    # ---- B2 verdicts, history layer
+    hconsumed = hcompiles = hrej = 0
+    for (i, p, part), (r, _) in zip(hchunks, hresults):
+        if r["consumed"] != len(part) or not r["done"]:
+            raise Inconclusive("history trace chunk %d: consumed %d of %d records" % (i, r["consumed"], len(part)))
+        hconsumed += r["consumed"]
+        hcompiles += r["nontrivial"]
+        for bad in r["bad"]:
+            rec = json.loads(part[bad["l"] - 1])
+            if rec.get("canary"):
+                hrej += 1
+                continue
+            if bad["class"] in ("harness-wf", "harness-print", "harness-end", "model"):
+                raise Inconclusive("history trace record rejected for a reason that is not the compiler's (%s): %s" % (
+                    bad["class"], json.dumps(rec)[:1500]))
+            # the history up to the rejected record
+            j = bad["l"] - 1
+            while j > 0 and json.loads(part[j])["op"] != "new":
+                j -= 1
+            hist_txt = []
+            for ln in part[j:bad["l"]]:
+                x = json.loads(ln)
+                if x["op"] == "func":
+                    hist_txt.append("Func(%r, version %d)" % (_txt(x["name"]), x["ver"]))
+                elif x["op"] == "compile":
+                    hist_txt.append("Compile(%r)" % _txt(x["text"]))
+            if rec["op"] == "compile":
+                what = "the last call: optimised -> %r errors=%s counts=%s, unoptimised -> %r errors=%s counts=%s%s" % (
+                    _txt(rec["out"]), rec["errs"], rec["errn"], _txt(rec["out2"]), rec["errs2"], rec["errn2"],
+                    " PANIC " + rec.get("pmsg", "") if rec["panic"] else "")
+            else:
+                what = "re-evaluation of the compiled templates at the end gives %s / %s / first evaluation at the end %s%s" % (
+                    [_txt(o) for o in rec["re"]], [_txt(o) for o in rec["re2"]], [_txt(o) for o in rec["re3"]],
+                    " PANIC " + rec.get("pmsg", "") if rec["panic"] else "")
+            run.violation("b2h:%s:%s" % (rec["op"], bad["class"]),
+                          "recorded history on one key builder %s: %s is rejected by ExprSyntaxHist_Trace (%s)" % (
+                              " ; ".join(hist_txt), what, bad["class"]),
+                          {"history": [json.loads(ln) for ln in part[j:bad["l"]]], "class": bad["class"]})
+    if hrej != hcanary and not any(v[0].startswith("b2h:") for v in run.violations):
+        # (with real rejections around, a corrupted copy may be explained differently; without them every copy has to be rejected)
+        raise Inconclusive("history trace validation rejected only %d of %d deliberately corrupted histories" % (hrej, hcanary))
+    run.cov["b2_history_corrupted_rejected"] = "%d of %d" % (hrej, hcanary)
+    run.cov["b2_histories"] = hn
+    run.cov["b2_history_records"] = hconsumed
+    hcompiles -= hcanary_compiles
+    run.cov["b2_history_compilations"] = hcompiles
+    run.cov["traces_validated_against_impl"] += 3 * hcompiles
+    run.cov["evaluations"] += 3 * hcompiles
+    run.cov["distinct_nontrivial"] += hn
     run.cov["rule"] = ("B3: every case of every group of ExprSyntaxCases (law per kind); B1: every case compiled twice (optimising / not), "
                        "non-trivial = distinct template text whose kind demands a rendering or error classes (not 'any'); "
-                       "B2: one record per random template (compiled twice), non-trivial = kind 'tree' (inside the documented domain)")
+                       "B2: one record per random template (compiled twice), non-trivial = kind 'tree' (inside the documented domain); "
+                       "history layer: B3 every history of <= 3 operations of every pool (+ random walks of 7), B1 non-trivial = distinct "
+                       "history with >= 2 different templates or a text met again / compiled after a registration, B2 one per random history")
